@@ -175,7 +175,11 @@ func cmdVerify(args []string) {
 // reaching the program point (each sub-query with the full budget).
 func solveObligation(ob *Obligation, timeoutS int) {
 	if ob.Expect == "sat" {
-		ob.Result = Solve(ob.Query(), timeoutS, true)
+		tmo := timeoutS
+		if strings.Contains(ob.Name, "/VAC/return") && tmo > 5 {
+			tmo = 5 // informational reachability probes get a short budget
+		}
+		ob.Result = Solve(ob.Query(), tmo, true)
 		return
 	}
 	parts := splitGoal(ob.Goal)
